@@ -6,6 +6,8 @@ import DrummerVerif.Lemmas.C02Events
 import DrummerVerif.Lemmas.Applied
 import DrummerVerif.Lemmas.C01M
 import DrummerVerif.Lemmas.C01R
+import DrummerVerif.Lemmas.C05S
+import DrummerVerif.Lemmas.C01T
 /-!
 # C01 — self-healing: the control loop restores every shard after faults stop (PARTIAL: safety invariants and per-round progress lemmas; the convergence bound is decided by the correspondence run, see DESIGN.md)
 
@@ -336,6 +338,72 @@ theorem round_output_contains_its_restore_phase :
       maintain cx draws = SRes.ok all rest → restore cx = Outcome.ok rs → ∀ (r : Request), r ∈ rs → r ∈ all :=
   @_root_.Drummer.maintain_contains_restore
 
+
+/-! ### the detection half of the healing timeline (shared with C05): a member that is no longer reported keeps its report time and is classified
+    failed once the timeout has passed on the logical clock - whatever else is applied in between -/
+
+/-- along ANY command history in which no report lists replica `rid` of shard `s` (ticks, other NodeHosts' reports in
+any order, request batches, KV writes, definitions - any number), every record the final views hold for it is one the
+initial views held for it (same report time, same first-seen time), or has no report time at all (a member added anew) -/
+theorem silent_member_keeps_its_record :
+    ∀ (cs : List Cmd) (d d' : DB), runCmds d cs = Outcome.ok d' → ∀ (s rid : Nat),
+      (∀ c ∈ cs, ¬ Cmd.lists s rid c) →
+      ∀ c' ∈ d'.image.shards, c'.shardId = s → ∀ r' ∈ c'.replicas, r'.replicaId = rid →
+        (∃ c ∈ d.image.shards, c.shardId = s ∧ ∃ r ∈ c.replicas,
+          r.replicaId = r'.replicaId ∧ r.tick = r'.tick ∧ r.firstObserved = r'.firstObserved) ∨ r'.tick = 0 :=
+  @_root_.Drummer.silent_member_keeps_its_record
+
+/-- the logical clock is the number of tick commands applied, times the fixed step (time advances only by ticks) -/
+theorem clock_counts_ticks :
+    ∀ (cs : List Cmd) (d d' : DB), runCmds d cs = Outcome.ok d' → d'.tick = d.tick + ticksIn cs * tickInterval :=
+  @_root_.Drummer.clock_counts_ticks
+
+/-- **a silent member is detected**: last reported at the positive time `t0`, then any history without a report listing
+it whose ticks carry the clock more than the failure timeout past `t0`: whatever record the views hold for it at the end
+is classified failed (or belongs to a member added anew, with no report time). -/
+theorem silent_member_is_detected :
+    ∀ (cs : List Cmd) (d d' : DB), runCmds d cs = Outcome.ok d' → ∀ (s rid t0 : Nat),
+      (∀ c ∈ cs, ¬ Cmd.lists s rid c) →
+      (∀ c ∈ d.image.shards, c.shardId = s → ∀ r ∈ c.replicas, r.replicaId = rid → r.tick = t0) →
+      0 < t0 → t0 ≤ d.tick → d'.tick < 18446744073709551616 →
+      d.tick + ticksIn cs * tickInterval - t0 > nodeHostTTL →
+      ∀ c' ∈ d'.image.shards, c'.shardId = s → ∀ r' ∈ c'.replicas, r'.replicaId = rid →
+        Replica.failed r' d'.tick = true ∨ r'.tick = 0 :=
+  @_root_.Drummer.silent_member_is_detected
+
+/-! ### the detection half inside the closed loop: a report lists only what its host runs, so a crashed member is
+    listed by nobody; its record survives whatever the loop does meanwhile, and it is classified failed once the
+    timeout has passed -/
+
+theorem report_lists_only_running_replicas :
+    ∀ (l : Loop) (h : Host) (count : Nat) (ci : ShardInfo),
+      ci ∈ (Loop.buildReport l h count).shardInfo →
+        ∃ rep, Host.run? h ci.shardId = some rep ∧ rep.id = ci.replicaId :=
+  @_root_.Drummer.buildReport_lists_only_running
+
+/-- along ANY sequence of loop events (reports of every NodeHost with or without lost replies, scheduling rounds with any
+orders and draws, executions, crashes, restarts, catch-up, ticks) during which nobody runs replica `rid` of shard `s`,
+every record the views end up holding for it is one they held at the start, or has no report time -/
+theorem crashed_member_record_survives :
+    ∀ (size : Nat → Nat) (s rid : Nat) (l l' : Loop),
+      StepsWhile size (Loop.NotRunning s rid) l l' →
+        ∀ c' ∈ l'.db.image.shards, c'.shardId = s → ∀ r' ∈ c'.replicas, r'.replicaId = rid →
+          (∃ c ∈ l.db.image.shards, c.shardId = s ∧ ∃ r ∈ c.replicas,
+            r.replicaId = r'.replicaId ∧ r.tick = r'.tick ∧ r.firstObserved = r'.firstObserved) ∨ r'.tick = 0 :=
+  @_root_.Drummer.crashed_member_record_survives
+
+/-- **a crashed member is detected**: last reported at the positive time `t0`, running nowhere since; once the logical
+clock is more than the failure timeout past `t0` every record the views hold for it is classified failed (or belongs to a
+member added anew) - the hypothesis `restorable` of `detected_member_is_restored_by_one_round` then follows from the
+NodeHost being back and listing the replica's log -/
+theorem crashed_member_is_detected :
+    ∀ (size : Nat → Nat) (s rid t0 : Nat) (l l' : Loop),
+      StepsWhile size (Loop.NotRunning s rid) l l' →
+        (∀ c ∈ l.db.image.shards, c.shardId = s → ∀ r ∈ c.replicas, r.replicaId = rid → r.tick = t0) →
+          0 < t0 → l'.db.tick < 18446744073709551616 → l'.db.tick - t0 > nodeHostTTL →
+            ∀ c' ∈ l'.db.image.shards, c'.shardId = s → ∀ r' ∈ c'.replicas, r'.replicaId = rid →
+              Replica.failed r' l'.db.tick = true ∨ r'.tick = 0 :=
+  @_root_.Drummer.crashed_member_is_detected
 
 end C01
 end Drummer
